@@ -608,6 +608,79 @@ def pool_map(f, xs, chunksize=8):
     return [f(x) for x in xs]
 
 
+XCHECK_MAX_V = 40
+
+
+def coq_crosscheck(ctx, items):
+    """Extraction cross-check (DESIGN 1.3): for a small random sample of the lattices sent to the c02 driver, every line
+    the driver printed (tables, query helpers, the four history-free attribute values, plaq_list_ok, the cache state
+    machine's run on each history) is re-derived INSIDE Coq by vm_compute on the same lattice literal and must coincide.
+    items: evaluate()'s work items with it["model"] = parse_model(driver answer).  Records the number of goals."""
+    import xcheck as X
+    small = [it for it in items if it["model"] is not None and "error" not in it["model"] and len(it["arr_v"][0]) <= XCHECK_MAX_V]
+    rng = np.random.default_rng([ctx.seed, 2, 99])
+    k = min(len(small), 8 if ctx.tier == "quick" else 80)
+    pick = [small[i] for i in sorted(rng.choice(len(small), size=k, replace=False))] if k else []
+    rows = lambda t: X.lst(X.natlist, t)
+    orows = lambda t: X.lst(lambda r: X.lst(X.onat, r), t)
+    nlpair = X.pair(X.natlist, X.natlist)
+    opn = ["GetPlaquettes", "GetNPlaquettes", "GetEdgeAdj", "GetVertexAdj"]
+
+    def value(v):
+        """the projection [pv] (below) of a Cache.value, as parse_value() read it from the driver"""
+        if v[0] == "P":
+            return ("(PV_P " + X.lst(lambda p: f"({X.natlist(p[0])}, {X.natlist(p[1])}, {X.lst(lambda d: X.boolean(d == 1), p[2])})", v[1])
+                    + " " + orows(v[2]) + ")")
+        if v[0] == "N":
+            return f"(PV_N {X.nat(v[1])})"
+        if v[0] == "E":
+            return "(PV_E " + X.lst(X.pair(X.onat, X.onat), v[1]) + ")"
+        if v[0] == "V":
+            return "(PV_V " + orows(v[1]) + ")"
+        return {"RAISE": "PV_Raise", "ATTRERROR": "PV_AttrError"}[v[0]]
+
+    body = [
+        # the driver prints a plaquette as (vertices, edges, directions): same projection here
+        "Inductive pvalue := PV_P (ps : list (list nat * list nat * list bool)) (nbs : list (list (option nat))) | PV_N (n : nat)",
+        "  | PV_E (t : list ep_row) | PV_V (t : vtable) | PV_Raise | PV_AttrError.",
+        "Definition pv (v : value) : pvalue := match v with",
+        "  | VPlaq (ps, nbs) => PV_P (map (fun p => (p_verts p, p_edges p, p_dirs p)) ps) nbs | VNat n => PV_N n",
+        "  | VEdge t => PV_E t | VVert t => PV_V t | VRaise => PV_Raise | VAttrError => PV_AttrError end.",
+        "Definition plist (L : lattice) : option (list plaquette) :=",
+        "  match pure_value L GetPlaquettes with VPlaq (ps, _) => Some ps | _ => None end.",
+    ]
+    for i, it in enumerate(pick):
+        m, S = it["model"], it["S"]
+        pos, edges, crossing = it["arr_v"]
+        L = f"L{i}"
+        body.append(f"Definition {L} : lattice := {X.lattice(pos, edges, crossing, S)}.")
+        g = lambda lhs, rhs: body.append(X.goal(lhs, rhs))
+        g(f"(wf_lattice {L}, no_self_loops {L}, generic_count {L})", f"({X.boolean(m['wf'])}, {X.boolean(m['noloops'])}, {X.nat(m['generic'])})")
+        g(f"vectors {L}", X.lst(X.zpair, m["vectors"]))
+        g(f"adj_table {L}", rows(m["adj"]))
+        g(f"coordination {L}", X.natlist(m["coord"]))
+        g(f"map (edge_neighbours {L}) (seq 0 (nE {L}))", rows(m["edge_nb"]))
+        if "adjm" in m:
+            g(f"filter (fun ij => adjacency_true {L} (fst ij) (snd ij)) (list_prod (seq 0 (nV {L})) (seq 0 (nV {L})))",
+              X.lst(X.natpair, sorted(m["adjm"])))
+        g(f"all_vertex_neighbours {L}", X.lst(nlpair, m["q_vn"]))
+        g(f"all_q_edge_neighbours {L}", rows(m["q_en"]))
+        g(f"all_clockwise_about {L}", X.lst(nlpair, m["q_cw"]))
+        g(f"all_edge_vectors {L}", X.lst(lambda r: X.lst(X.zpair, r), m["q_ev"]))
+        g(f"let cp := compute_plaquettes {L} in map (fun o => pv (pure_value_of cp o)) [{'; '.join(opn)}]", X.lst(value, m["pure"]))
+        if m["pure"][0][0] == "P":
+            g(f"option_map (plaq_list_ok {L}) (plist {L})", f"Some {X.boolean(m['hyp'])}")
+            g(f"option_map (all_q_adjacent_plaquettes {L}) (plist {L})", "Some " + X.lst(X.option(nlpair, "(list nat * list nat)"), m["q_ap"]))
+        else:
+            g(f"plist {L}", "None")
+        for h, toks in zip(it["hists"], m["hist"]):
+            if all(t == "=" for t in toks) and len(toks) == len(h):      # "=": the driver found the run's value equal to the pure one
+                ops = "[" + "; ".join(opn[o] for o in h) + "]"
+                g(f"snd (run {L} cinit {ops})", f"let cp := compute_plaquettes {L} in map (pure_value_of cp) {ops}")
+    ctx.res.extra["extraction_crosscheck_goals_vm_compute"] = X.compile_goals("c02", "Model.Lattice Model.TableSpec Model.Cache Model.Queries", body, "c02")
+    ctx.res.extra["extraction_crosscheck_lattices"] = len(pick)
+
+
 def evaluate(ctx, cases, label, n_full=60, force_full=False):
     res = ctx.res
     items, lines = [], []
@@ -663,6 +736,8 @@ def evaluate(ctx, cases, label, n_full=60, force_full=False):
         if st["npl"] >= 2:
             res.sample({"case": c, "variant": it["variant"], "V": st["nV"], "E": st["nE"], "plaquettes": st["npl"],
                         "histories": st["hist"], **st["first"]})
+    if label.startswith("K("):
+        coq_crosscheck(ctx, items)      # extraction cross-check: a sample of the driver's answers re-derived inside Coq
 
 
 def all_cases(tier, seed, exhaustive=True):
